@@ -50,7 +50,7 @@ static void rand_bound(mpz_class& a, mpz_class& b) {
     int k = rnd(0, 9);
     if (k < 3) b = pow2z(t.fdigits + rnd(-1, 2)) + rnd(-1, 1);
     else if (k < 5) { b = rnd(-7, 7); a = coin() ? 3 : (coin() ? 7 : 10); }
-    else if (k < 7) b = pow10z(t.maxexp10) * rnd(1, 4);
+    else if (k < 8) b = pow10z(t.maxexp10) * rnd(1, 4);
     else if (k < 9) { b = rnd(1, 5); a = pow10z(t.maxexp10 + rnd(0, 8)); }
     else b = pow10z(rnd(5, 25)) + rnd(0, 9);
     if (coin()) b = -b;
@@ -100,17 +100,23 @@ static Constraint any_con(int n, bool strict_ok) {
 static std::string str_cons(const std::vector<Constraint>& v) { std::string s; for (size_t i = 0; i < v.size(); ++i) s += (i ? ", " : "") + str(v[i]); return s; }
 
 // ---------- observation ----------
-static bool observe(const Shape& s, Sys& out, const std::string& op) {
-  try { SP c(s.clone()); Constraint_System cs = c->constraints(); out = ref::conv(cs, s.dim()); return true; }
-  catch (const std::exception& e) { violation(key("C03.unobservable", op), std::string("constraints() of a copy threw ") + typeid(e).name() + ": " + e.what()); return false; }
+// The denotation of an element is the point set of its matrix: a copy is converted (exactly)
+// to the same domain over mpq_class and read through constraints().  Reading constraints() of
+// the inexact element itself is not faithful: once the "reduced" flag is set it drops
+// constraints that an overflowed closure wrongly marked redundant.
+static bool status_word(const Shape& s, std::string& word, const std::string& op, const std::string& cls = "");
+static bool observe(const Shape& s, Sys& out, const std::string& op, const std::string& cls = "") {
+  std::string w; if (!status_word(s, w, op, cls)) return false;
+  try { SP c(s.clone()); Constraint_System cs = c->matrix_constraints(); out = ref::conv(cs, s.dim()); return true; }
+  catch (const std::exception& e) { violation(key("C03.unobservable", op, cls), std::string("constraints() of a copy threw ") + typeid(e).name() + ": " + e.what()); return false; }
 }
 // status word of ascii_dump; also refuses matrices holding NaN
-static bool status_word(const Shape& s, std::string& word, const std::string& op) {
+static bool status_word(const Shape& s, std::string& word, const std::string& op, const std::string& cls) {
   std::string text;
   try { std::ostringstream o; s.ascii_dump(o); text = o.str(); }
-  catch (const std::exception& e) { violation(key("C03.unobservable", op), std::string("ascii_dump threw ") + typeid(e).name() + ": " + e.what()); return false; }
+  catch (const std::exception& e) { violation(key("C03.unobservable", op, cls), std::string("ascii_dump threw ") + typeid(e).name() + ": " + e.what()); return false; }
   std::string low = text; for (size_t i = 0; i < low.size(); ++i) low[i] = tolower(low[i]);
-  if (low.find("nan") != std::string::npos) { violation(key("C03.unobservable", op), "NaN entry in the matrix: " + cut(text, 400)); return false; }
+  if (low.find("nan") != std::string::npos) { violation(key("C03.unobservable", op, cls), "NaN entry in the matrix: " + cut(text, 400)); return false; }
   size_t p = text.find("EM"); word = "?";
   if (p != std::string::npos) { size_t a = text.rfind('\n', p); a = (a == std::string::npos) ? 0 : a + 1; size_t b = text.find('\n', p); word = text.substr(a, b - a); }
   return true;
@@ -131,26 +137,32 @@ static std::string shape_class(int n, const Sys& S) {
 static bool nontrivial(const std::string& c) { return c != "empty" && c != "universe"; }
 
 // ---------- triage class of a soundness alarm (deterministic predicate on the inputs) ----------
-// est = (sum |coef|) * (largest |bound| of the arguments) + |inhomogeneous|
-static std::string mag_class(const std::vector<const Sys*>& args, const std::vector<Q>& coefs, const Q& inhomo) {
+// est = (sum |coef|) * (largest |bound| of the arguments and of the operation's constants) + |inhomogeneous|
+//   bounded integers:  overflow  (est exceeds the largest finite value of T) | inrange
+//   floating point:    denormal  (a non-zero bound below the smallest normal number of T)
+//                      overflow  (est beyond the largest finite value) | inexact (est >= 2^mantissa) | ordinary
+static std::string mag_class(const std::vector<const Sys*>& args, const std::vector<Q>& coefs, const Q& inhomo, const std::vector<Q>& vals = std::vector<Q>()) {
   const TypeInfo& t = g.ti;
   if (!t.bits && !t.fdigits) return "";
   Q M = 0, tiny = 0; bool has_tiny = false;
+  std::vector<Q> all = vals;
   for (size_t k = 0; k < args.size(); ++k) for (size_t i = 0; i < args[k]->size(); ++i) {
     const Con& c = (*args[k])[i]; Q am = 0; for (size_t j = 0; j < c.a.size(); ++j) if (abs(c.a[j]) > am) am = abs(c.a[j]);
-    if (am == 0) continue;
-    Q v = abs(c.b) / am; if (v > M) M = v;
-    if (v != 0 && (!has_tiny || v < tiny)) { tiny = v; has_tiny = true; }
+    if (am != 0) all.push_back(abs(c.b) / am);
   }
+  for (size_t i = 0; i < all.size(); ++i) { Q v = abs(all[i]); if (v > M) M = v; if (v != 0 && (!has_tiny || v < tiny)) { tiny = v; has_tiny = true; } }
   Q P = 0; for (size_t i = 0; i < coefs.size(); ++i) P += abs(coefs[i]);
-  if (coefs.empty()) P = 2;   // binary lattice operations add two bounds at most
+  if (coefs.empty()) P = 2;   // lattice operations and closure add two bounds
   Q est = P * M + abs(inhomo);
   if (t.bits) { Q L(pow2z(t.bits - 1) - 2); return est > L ? "overflow" : "inrange"; }
-  Q big(pow2z(t.fdigits)); Q small = 1 / big;
-  if (est >= big || abs(inhomo) >= big) return "extreme";
-  if (has_tiny && tiny < small) return "extreme";
+  int emax = t.fdigits == 24 ? 128 : t.fdigits == 53 ? 1024 : 16384;
+  Q minnorm = 1 / Q(pow2z(emax - 2));
+  if (has_tiny && tiny < minnorm) return "denormal";
+  if (est >= Q(pow2z(emax))) return "overflow";
+  if (est >= Q(pow2z(t.fdigits)) || abs(inhomo) >= Q(pow2z(t.fdigits))) return "inexact";
   return "ordinary";
 }
+static Q bound_of(const Constraint& c) { Q am = 0; for (dimension_type i = 0; i < c.space_dimension(); ++i) { Q v = abs(ref::toQ(c.coefficient(Variable(i)))); if (v > am) am = v; } Q b = abs(ref::toQ(c.inhomogeneous_term())); return am == 0 ? b : Q(b / am); }
 
 // ---------- the oracles ----------
 // exact result T (exists-form) must be inside the returned element
@@ -305,7 +317,7 @@ static bool mutate(StepCtx& c) {
   const int n = c.n; Shape& A = c.A(); Shape& B = c.B();
   const Sys& SA = c.SA; const Sys& SB = c.SB;
   std::string op; std::ostringstream t; std::vector<ESys> pieces; Mode mode = SOUND_ONLY; std::string cls04;
-  std::vector<const Sys*> margs; margs.push_back(&SA); std::vector<Q> mcoefs; Q minh = 0; bool mcoef_given = false;
+  std::vector<const Sys*> margs; margs.push_back(&SA); std::vector<Q> mcoefs, mvals; Q minh = 0; bool mcoef_given = false;
   bool usesB = false; bool ok = true;
   std::function<void()> call; std::function<bool(const Sys&)> extra;   // extra oracle after the generic one
   std::shared_ptr<int> bres(new int(-1));
@@ -320,8 +332,7 @@ static bool mutate(StepCtx& c) {
     call = [=, &A]() { if (which == 0) A.add_constraint(cv[0]); else if (which == 1) A.add_constraints(cs); else { Constraint_System tmp(cs); A.add_recycled_constraints(tmp); } };
     Sys T = SA; for (size_t i = 0; i < cv.size(); ++i) T.push_back(ref::conv(cv[i], n));
     pieces.push_back(ref::esys_of(T, n)); mode = EXACT;
-    for (size_t i = 0; i < cv.size(); ++i) qvec(Linear_Expression(cv[i].expression()), n, Coefficient(1), mcoefs, minh);
-    mcoefs.clear(); mcoefs.push_back(Q(1)); mcoef_given = true;
+    for (size_t i = 0; i < cv.size(); ++i) mvals.push_back(bound_of(cv[i]));
   }
   else if (k < 14) { // refine_with_constraint(s): arbitrary constraints, strict ones included
     int which = rnd(0, 1); int cnt = which == 0 ? 1 : rnd(0, 3);
@@ -333,8 +344,7 @@ static bool mutate(StepCtx& c) {
     call = [=, &A]() { if (which == 0) A.refine_with_constraint(cv[0]); else A.refine_with_constraints(cs); };
     Sys T = SA; for (size_t i = 0; i < cv.size(); ++i) T.push_back(ref::conv(cv[i], n));
     pieces.push_back(ref::esys_of(T, n)); mode = allrep ? EXACT : SOUND_ONLY; cls04 = "representable";
-    for (size_t i = 0; i < cv.size(); ++i) { std::vector<Q> tmp; qvec(Linear_Expression(cv[i].expression()), n, Coefficient(1), tmp, minh); }
-    mcoefs.push_back(Q(1)); mcoef_given = true;
+    for (size_t i = 0; i < cv.size(); ++i) mvals.push_back(bound_of(cv[i]));
   }
   else if (k < 19) { // congruences: add_ takes representable equalities, refine_ anything
     int which = rnd(0, 4); int cnt = (which == 0 || which == 3) ? 1 : rnd(0, 2); bool refine = which >= 3;
@@ -354,10 +364,9 @@ static bool mutate(StepCtx& c) {
       if (gv[i].is_equality()) T.push_back(Con(a, Q(-b), ref::EQ));
       else if (gv[i].is_inconsistent()) T.push_back(Con(Vec(n), Q(-1), ref::LE));
       // other proper congruences are documented to be ignored
-      if (abs(b) > minh) minh = abs(b);
+      { Q am = 0; for (int d = 0; d < n; ++d) if (abs(a[d]) > am) am = abs(a[d]); mvals.push_back(am == 0 ? Q(abs(b)) : Q(abs(b) / am)); }
     }
     pieces.push_back(ref::esys_of(T, n)); mode = allrep ? EXACT : SOUND_ONLY; cls04 = "representable";
-    mcoefs.push_back(Q(1)); mcoef_given = true;
   }
   else if (k < 28) { // affine image / preimage
     bool pre = coin(); int v = rnd(0, n - 1); int d = rand_den(); Linear_Expression e = affine_expr(n, v, d);
@@ -494,11 +503,11 @@ static bool mutate(StepCtx& c) {
   tr(c.pre + t.str()); hx::count("op." + op);
   if (nontrivial(c.clsA)) hx::distinct("op|" + g.inst + "|" + op + "|" + c.stw + "|" + c.clsA + (usesB ? "|" + c.clsB + (c.ai == c.bi ? "|alias" : "") : "") + (cls04.empty() ? "" : "|" + cls04));
   c.lastop[c.ai] = op;
+  std::string cls03 = mag_class(margs, mcoef_given ? mcoefs : std::vector<Q>(), minh, mvals);
   if (!guarded(op, call)) return false;
-  Sys RC; std::string w;
-  if (!status_word(A, w, op) || !observe(A, RC, op)) return false;
+  Sys RC;
+  if (!observe(A, RC, op, cls03)) return false;
   if ((int) A.dim() != n) { violation(key("C03.sound", op, "dimension"), "space dimension changed"); return false; }
-  std::string cls03 = mag_class(margs, mcoef_given ? mcoefs : std::vector<Q>(), minh);
   std::string ctx = "A=" + cut(show(SA), 500) + (usesB ? " B=" + cut(show(SB), 500) : "") + " R=" + cut(show(RC), 500);
   if (!pieces.empty()) ok = verify(op, cls03, cls04, mode, pieces, n, RC, ctx);
   if (ok && extra) ok = extra(RC);
@@ -868,11 +877,12 @@ static bool dims_op(StepCtx& c) {
   if (!Tm) c.lastop[c.ai] = op;
   if (!guarded(op, call)) return false;
   Shape& R = Tm ? *Tm : c.A();
-  Sys RC; std::string w; if (!status_word(R, w, op) || !observe(R, RC, op)) return false;
-  if (R.dim() != rn) { violation(key("C03.sound", op, "dimension"), "space dimension " + std::to_string(R.dim()) + " instead of " + std::to_string(rn)); return false; }
   std::vector<const Sys*> margs; margs.push_back(&SA); if (usesB) margs.push_back(&SB);
   std::string cls = mag_class(margs, std::vector<Q>(), Q(0));
-  return verify(op, cls, "", mode, pieces, rn, RC, "A=" + cut(show(SA), 500) + (usesB ? " B=" + cut(show(SB), 500) : "") + " R=" + cut(show(RC), 500));
+  Sys RC; if (!observe(R, RC, op, cls)) return false;
+  if (R.dim() != rn) { violation(key("C03.sound", op, "dimension"), "space dimension " + std::to_string(R.dim()) + " instead of " + std::to_string(rn)); return false; }
+  std::string cls04 = (which == 5 && c.clsB == "empty") ? "argument-empty" : "";
+  return verify(op, cls, cls04, mode, pieces, rn, RC, "A=" + cut(show(SA), 500) + (usesB ? " B=" + cut(show(SB), 500) : "") + " R=" + cut(show(RC), 500));
 }
 
 // ---------- history independence (unbounded rationals only) ----------
